@@ -7,4 +7,8 @@ RRepeats == {33}
 RFactors == {<<1, 4>>, <<1, 2>>, <<2, 1>>, <<3, 1>>}
 ROps == {"Add", "AddWithCount", "AddBin", "Merge", "CopyTo", "Clear", "Reweight", "EncDec", "Proto", "Read"}
 RInit == (1 :> NewStore("high", 1)) @@ (2 :> NewStore("exact", 0)) @@ (3 :> NewStore("high", 3))
+RSlotKeys == (1 :> {0, 1, 2, 3, 4}) @@ (2 :> {0, 1, 2, 3, 4}) @@ (3 :> {0, 1, 2, 3, 4})
+RAsc == {}
+RDesc == {}
+RPairs == {}
 ====
